@@ -29,6 +29,18 @@ CHECKS = {
  "C08": ("exploration", "history monitor against a value-semantics model (invariant at every step boundary) + race detector",
          "Every operation sequence up to length 4 on two table ids (complete DFS) and random histories of length 5..8 on three ids; after every step every live table is read back and compared with the value model; a mismatch is attributed to known finding K1 only if it equals the aliasing defect model. Counting clause on deep copies; 16 goroutines re-weight tables of distinct ids under -race.",
          "the receiver of OptimizeTable is not inspected again (documented in-place mutation); compromise values are C18's subject", "5 C08"),
+ "C10": ("exploration", "reference-model monitor (modular-arithmetic Type IIS geometry) with complete rotation sweeps of small plasmids",
+         "CutWithEnzyme / CutWithEnzymeByName (directional) on generated layouts (20..3000 bases, 0..6 sites of either orientation, BsaI, BbsI, BtgZI and custom non-palindromic enzymes, linear and circular, random letter case, sites whose cut would need bases beyond the ends of linear parts) compared as fragment multisets with an independent geometric model; every rotation of every generated circular plasmid of 20..300 bases is digested and compared with the same multiset.",
+         "model cross-checked per case against a naive linear evaluator on a safely linearised rotation and against the generator's list of placed sites; layouts outside the property's stated restrictions are redrawn, not judged", "5 C10"),
+ "C13": ("exploration", "round-trip and re-layout monitor + producer/consumer event-sequence monitor under the race detector",
+         "Record lists (sequences to 300,000 letters incl. the 64 KiB boundary lengths) through Build -> Parse, Write -> Read, gzip -> ReadGz and through re-layouts by the harness's own writer (wrap width, blank lines, ';' comments, CRLF); ParseConcurrent runs in a harness goroutine with channel capacities 0..1000, PRNG-stalled consumers and dribbling readers: the received sequence must equal the list and the channel must be closed exactly once; race reports are violations.",
+         "closed-exactly-once decided without blocking after the producer returned; wall-clock watchdog only yields inconclusive", "5 C13"),
+ "C15": ("exploration", "round-trip monitor with INSDC oracle for feature sequences",
+         "Generated annotated sequences (every field populated, location trees to depth 4, empty/absent collections, non-ASCII and <>& text) and parser outputs over generated GenBank and GFF files go through JSON -> polyjson.Parse and Write -> Read; every field is compared, feature sequences are re-evaluated by the INSDC oracle after reading, and GenBank/GFF text built after the round trip must equal the direct build; earlier values are re-inspected after later calls.",
+         "nil and empty collections are equal", "5 C15"),
+ "C20": ("fault_enumeration", "producer/consumer event monitor with goroutine-state sampling (wait-for cycle detection) under the race detector; complete enumeration of truncation offsets",
+         "Documents by the harness's own Uniprot XML writer, plain and gzip; truncation at every byte offset of small documents (complete), gzip-stream truncation, tag/bracket corruption and byte flips; sequential (documented) and concurrent consumers with channel capacities 0..100 and dribbling readers: entries before the damage arrive in order, at least one and a bounded number of errors, both channels closed, no persistent wait-for cycle, no race report.",
+         "bounded progress instead of termination: event-count bound and wait-for-cycle detection by runtime.Stack sampling; wall-clock watchdog only yields inconclusive; well-formedness of damaged text decided by the harness's own encoding/xml token loop", "5 C20"),
  "C11": ("exploration", "reference-model monitor with complete small spaces",
          "Reverse complement, complement, reverse, palindrome test and IUPAC expansion are compared with base-set semantics on every IUPAC string to length 4 (quick) / 5 (thorough), mixed case to length 2/3, all split points, and random strings to 10^4.",
          "oracle derives complements and expansions from NC-IUB base sets", "5 C11"),
